@@ -164,6 +164,7 @@ func c16uci(c *Ctx) {
 	}
 	defer func() { search.VerifTraceHook = nil }()
 	var lastScript []string
+	unansweredIsready := 0
 	for sid := 0; sid < nSess; sid++ {
 		if !c.Mine(sid) {
 			continue
@@ -286,6 +287,23 @@ func c16uci(c *Ctx) {
 			f := strings.Fields(line)
 			if len(f) > 0 && (f[0] == "go" || f[0] == "perft") {
 				time.Sleep(time.Duration(r.Intn(3000)) * time.Microsecond)
+				if r.Chance(0.3) && unansweredIsready < 3 {
+					// isready has to be answered while whatever the line started is still running
+					rep.Inc("uci_isready_before_stop")
+					if ok, _ := u.sync(20 * time.Second); !ok {
+						dl, sig := provenDeadlock()
+						k := "uci:isready-unanswered-while-searching"
+						if dl {
+							k += ":deadlock:" + sig
+						}
+						unansweredIsready++ // every further one costs 20 s and proves nothing new
+						rep.Viol(k+":"+cmdClass(line), fmt.Sprintf("after line %q (no stop sent yet) the engine does not answer isready within 20 s (%s)", desc, sig), map[string]interface{}{"session": sid, "line": desc, "transcript_tail": u.transcript(30)})
+						// (the loop does not read any more: writing to its pipe would block for good)
+						u.dispose()
+						u = nil
+						continue
+					}
+				}
 				u.send("stop")
 			}
 			ok, _ := u.sync(20 * time.Second)
